@@ -684,7 +684,7 @@ func (tic *TermInCommittee) isViewChangeValid(expectedLeaderFromNewView primitiv
 	return nil
 }
 
-func (tic *TermInCommittee) validateViewChangeVotes(targetBlockHeight primitives.BlockHeight, targetView primitives.View, confirmations []*protocol.ViewChangeMessageContent) error {
+func (tic *TermInCommittee) validateViewChangeVotes(targetInstanceId primitives.InstanceId, targetBlockHeight primitives.BlockHeight, targetView primitives.View, confirmations []*protocol.ViewChangeMessageContent) error {
 	senders := make([]primitives.MemberId, len(confirmations))
 	for i, confirmation := range confirmations {
 		senders[i] = confirmation.Sender().MemberId()
@@ -713,6 +713,16 @@ func (tic *TermInCommittee) validateViewChangeVotes(targetBlockHeight primitives
 			return fmt.Errorf("memberId %s appears in more than one confirmation", senderMemberIdStr)
 		}
 		set[senderMemberIdStr] = true
+		// every vote counted towards the quorum must be a genuine vote of a committee member for this instance
+		if !confirmation.SignedHeader().InstanceId().Equal(targetInstanceId) {
+			return fmt.Errorf("confirmation of memberId %s is for a different instanceId", senderMemberIdStr)
+		}
+		if !proofsvalidator.IsInMembers(tic.committeeMembers, confirmation.Sender().MemberId()) {
+			return fmt.Errorf("confirmation sender %s is not a member of the committee", senderMemberIdStr)
+		}
+		if err := tic.keyManager.VerifyConsensusMessage(confirmationBlockHeight, confirmation.SignedHeader().Raw(), confirmation.Sender()); err != nil {
+			return errors.Wrapf(err, "confirmation of memberId %s is not signed by it", senderMemberIdStr)
+		}
 	}
 
 	return nil
@@ -753,7 +763,7 @@ func (tic *TermInCommittee) HandleNewView(nvm *interfaces.NewViewMessage) {
 		return
 	}
 
-	if err := tic.validateViewChangeVotes(nvmHeader.BlockHeight(), nvmHeader.View(), viewChangeConfirmations); err != nil {
+	if err := tic.validateViewChangeVotes(nvmHeader.InstanceId(), nvmHeader.BlockHeight(), nvmHeader.View(), viewChangeConfirmations); err != nil {
 		//this.logger.log({ subject: "Warning", message: `blockHeight:[${blockHeight}], view:[${view}], HandleNewView from "${senderId}", votes is invalid` });
 		tic.logger.Info("LHMSG RECEIVED NEW_VIEW IGNORE - validateViewChangeVotes failed: %s", err)
 		return
@@ -770,6 +780,11 @@ func (tic *TermInCommittee) HandleNewView(nvm *interfaces.NewViewMessage) {
 	if !ppMessageContent.SignedHeader().BlockHeight().Equal(nvmHeader.BlockHeight()) {
 		//this.logger.log({ subject: "Warning", message: `blockHeight:[${blockHeight}], view:[${view}], HandleNewView from "${senderId}", blockHeight doesn't match PP.Block()Height` });
 		tic.logger.Info("LHMSG RECEIVED NEW_VIEW IGNORE - NewView.BlockHeight and NewView.Preprepare.BlockHeight do not match")
+		return
+	}
+
+	if !ppMessageContent.SignedHeader().InstanceId().Equal(nvmHeader.InstanceId()) {
+		tic.logger.Info("LHMSG RECEIVED NEW_VIEW IGNORE - NewView.InstanceId and NewView.Preprepare.InstanceId do not match")
 		return
 	}
 
@@ -790,6 +805,11 @@ func (tic *TermInCommittee) HandleNewView(nvm *interfaces.NewViewMessage) {
 		// rewrite this mess
 		latestVoteBlockHash := latestVote.SignedHeader().PreparedProof().PreprepareBlockRef().BlockHash()
 		if latestVoteBlockHash != nil {
+			// the proposal must be the proven one: both the signed hash and the block itself
+			if !ppMessageContent.SignedHeader().BlockHash().Equal(latestVoteBlockHash) {
+				tic.logger.Info("LHMSG RECEIVED NEW_VIEW IGNORE - NewView.Preprepare.BlockHash is not the block hash of the latest prepared proof")
+				return
+			}
 			isValidDigest := tic.blockUtils.ValidateBlockCommitment(nvmHeader.BlockHeight(), nvm.Block(), latestVoteBlockHash)
 			if !isValidDigest {
 				//this.logger.log({ subject: "Warning", message: `blockHeight:[${blockHeight}], view:[${view}], HandleNewView from "${senderId}", the given _Block (PP._Block) doesn't match the best _Block from the VCProof` });
